@@ -30,6 +30,13 @@ class History:
         rng = self.rng
         r = rng.random()
         big = self.mode != "small"
+        if self.mode == "abortgrow" and self.keys[t] and r >= 0.25:
+            # mostly in-place growth of existing rows (rolled back by a shrinking update when the transaction aborts)
+            k = rng.choice(self.keys[t])
+            self.pending_keys = None
+            if r < 0.85:
+                return ("UPDATE %s SET v = '%s' WHERE k = %d;" % (t, pad(rng.choice([40, 60, 90, 150]), 1000 + rng.randrange(1000)), k), None, "update-grow")
+            return ("UPDATE %s SET g = %d WHERE k = %d;" % (t, rng.randrange(100, 200), k), None, "update-inplace")
         if r < (0.8 if self.mode == "grow" else 0.45) or not self.keys[t]:
             k = self.nextk; self.nextk += 1
             n = rng.choice([5, 30, 300, 700] if big else [5, 20])
@@ -81,7 +88,7 @@ class History:
         # a long-running transaction that stays open while other work commits (its records reach the
         # durable log through other transactions' commits and through evictions: recovery must undo it)
         bg_at = rng.randrange(0, max(1, nunits - 2)) if rng.random() < 0.7 else None
-        if self.mode == "grow":
+        if self.mode in ("grow", "abortgrow"):
             bg_at = None        # tables grow page by page and checkpoints (possible only with no transaction open) are frequent
         bg_open, bg_ops = False, 0
         for u in range(nunits):
@@ -108,6 +115,8 @@ class History:
             kind = rng.random()
             if self.mode == "grow":
                 kind = kind * 0.55 if kind < 0.6 else (0.6 if kind < 0.75 else 0.95)
+            if self.mode == "abortgrow":
+                kind = kind * 0.55 if kind < 0.35 else 0.6
             t = rng.choice(TABLES)
             if kind < 0.55:
                 sql, rl, what = self.stmt(t)
@@ -134,7 +143,7 @@ class History:
                     ops.append(rl); keyops.append(self.pending_keys)
                     # statements of one transaction must see its own earlier changes: apply key bookkeeping now
                     self.apply_keys()
-                commit = (not aborted) and rng.random() < (0.75 if self.mode != "aborts" else 0.45)
+                commit = (not aborted) and rng.random() < (0.75 if self.mode not in ("aborts", "abortgrow") else (0.45 if self.mode == "aborts" else 0.3))
                 if commit:
                     db.cmd("mark B %d" % label)
                     db.cmd("commit x%d" % label)
